@@ -1,7 +1,7 @@
 (** C06 — proofs of the Shape contract for the seven shape types (all sizes), and the
     refutations of the three repaired variants. *)
 From Coq Require Import ZArith List Bool Lia.
-From Geo Require Import Base.GoPrim Gen.C06Util Model.Shapes Proofs.C06_Slices.
+From Geo Require Import Base.GoPrim Gen.CellIDCov Model.Shapes Proofs.C06_Slices.
 Import ListNotations.
 Local Open Scope Z_scope.
 
